@@ -173,6 +173,8 @@ type c20case struct {
 	BaseList []string `json:"base_list,omitempty"`
 	// key under which a re-encoding difference of this case is reported
 	ReKey string `json:"rekey,omitempty"`
+	// the input is a header without a transaction part (HeaderFromRawBytes)
+	HeaderOnly bool `json:"header_only,omitempty"`
 }
 
 type c20run struct {
@@ -182,6 +184,8 @@ type c20run struct {
 	byHash    map[[32]byte]string
 	byContent map[string][32]byte
 	descOf    map[string]string
+	// verdict of the latest check / checkHeader call: "" (not in this shard), "accepted", "rejected", "panic"
+	last string
 }
 
 func (c *c20run) viol(key string, cs c20case, format string, a ...interface{}) {
@@ -209,6 +213,7 @@ func c20errClass(err error) string {
 // base describes the block a case was derived from (nil when none).
 func (c *c20run) check(cs c20case, input []byte, base *c20block) {
 	c.idx++
+	c.last = ""
 	if !c.all && !c.r.Mine(c.idx) {
 		return
 	}
@@ -230,11 +235,13 @@ func (c *c20run) check(cs c20case, input []byte, base *c20block) {
 	var errA error
 	if p := vh.Catch(func() { blkA, errA = BlockFromRawBytes(append([]byte{}, input...)) }); p != "" {
 		c.viol("panic:BlockFromRawBytes:"+cs.Family, cs, "panic: %s", p)
+		c.last = "panic"
 		return
 	}
 	if errA != nil {
 		ec := c20errClass(errA)
 		c.r.Class("rejected:" + cs.Family + ":" + ec)
+		c.last = "rejected"
 		if strings.HasSuffix(ec, "other") {
 			c.r.Set("unclassified_error:"+errA.Error(), cs.Family+"/"+cs.Desc)
 		}
@@ -263,6 +270,7 @@ func (c *c20run) check(cs c20case, input []byte, base *c20block) {
 		tail = "+trailing"
 	}
 	c.r.Class("accepted:" + cs.Family + tail)
+	c.last = "accepted"
 
 	for ei, b := range []*Block{blk, blkA} {
 		entry := []string{"Deserialization", "BlockFromRawBytes"}[ei]
@@ -346,22 +354,27 @@ func (c *c20run) check(cs c20case, input []byte, base *c20block) {
 // header-only entry point
 func (c *c20run) checkHeader(cs c20case, input []byte) {
 	c.idx++
+	c.last = ""
 	if !c.all && !c.r.Mine(c.idx) {
 		return
 	}
 	cs.Hex = c19hex(input)
+	cs.HeaderOnly = true
 	c.r.Eval(1)
 	var hd *Header
 	var err error
 	if p := vh.Catch(func() { hd, err = HeaderFromRawBytes(append([]byte{}, input...)) }); p != "" {
 		c.viol("panic:HeaderFromRawBytes:"+cs.Family, cs, "panic: %s", p)
+		c.last = "panic"
 		return
 	}
 	if err != nil {
 		c.r.Class("rejected:" + cs.Family + ":" + c20errClass(err))
+		c.last = "rejected"
 		return
 	}
 	c.r.Class("accepted:" + cs.Family)
+	c.last = "accepted"
 	arr := hd.ToArray()
 	if len(arr) > len(input) || !bytes.Equal(arr, input[:len(arr)]) {
 		key := c20reencodeKey(input, hd, cs.Family)
@@ -394,6 +407,10 @@ func c20varint(b []byte) (uint64, int, bool) {
 // count, or the first bookkeeper key whose wire form is not the canonical one
 // (class by the shape of the wire form), else the family.
 func c20reencodeKey(consumed []byte, hd *Header, family string) string {
+	if strings.HasPrefix(family, "lenbound") {
+		// the family names the one field whose prefix was chosen (C20_lenbound_test.go)
+		return "reencode:" + family
+	}
 	u := 4 + 32*3 + 4 + 4 + 8 + c19minWidth(uint64(len(hd.ConsensusPayload))) + len(hd.ConsensusPayload) + 20
 	if u > len(consumed) {
 		return "reencode:" + family
@@ -537,7 +554,7 @@ func TestVerif_C20(t *testing.T) {
 	var rc c20case
 	if r.ReplayCase(&rc) && rc.Hex != "" {
 		c.all = true
-		if rc.Family == "header" {
+		if rc.Family == "header" || rc.HeaderOnly {
 			c.checkHeader(rc, c19unhex(rc.Hex))
 		} else {
 			c.check(rc, c19unhex(rc.Hex), nil)
@@ -593,6 +610,12 @@ func TestVerif_C20(t *testing.T) {
 			}
 			c.check(c20case{Family: "base", Desc: fmt.Sprint(ix)}, enc(c20new(sel(ix...), keysets[s%2])), nil)
 		}
+	}
+
+	// every var-uint field at every width boundary (C20_lenbound_test.go)
+	c20lenBoundFamily(c, txs, forms)
+	if r.Expired() {
+		return
 	}
 
 	// tx-list mutations, header (root) left as is
